@@ -504,8 +504,13 @@ def unit_region_save(sess, ctx):
             gh["exists"] = lambda e, name: exists if name is formatted else z3.BoolVal(False)
             target = formatted
         af = Opq(tag="fmt")
+        # extra keyword arguments are options for the encoder; a caller may even spell an audio parameter among them
+        # (an options dict forwarded by a worker): the file still gets the REGION's rate, width and channels
+        extra = {"bitrate": Opq(tag="x")}
+        if eng.choose(2, None, "extra options: encoder options only / also a long-named audio parameter") == 1:
+            extra.update({"sampling_rate": Int("caller.sampling_rate"), "channels": Int("caller.channels")})
         try:
-            res = eng.run_function(ctx.fi(QC + "AudioRegion.save"), [fn, af, exists_ok], {"bitrate": Opq(tag="x")}, me)
+            res = eng.run_function(ctx.fi(QC + "AudioRegion.save"), [fn, af, exists_ok], extra, me)
         except PyRaise as e:
             eng.prove("C18:save:FileExistsError-iff-target-exists-and-not-exists_ok",
                       And(exists, Not(exists_ok)) if e.exc == "FileExistsError" else False, props=P18)
@@ -526,6 +531,9 @@ def unit_region_save(sess, ctx):
             eng.prove("C18:save:passes-rate-width-channels-un-swapped",
                       all(is_int(k.get(x)) for x in ("sr", "sw", "ch")) and
                       z3.is_true(z3.simplify(And(I(k["sr"]) == v.sr, I(k["sw"]) == v.sw, I(k["ch"]) == v.ch))), props=P18 + ("C13",))
+            # to_file resolves sampling_rate / sample_width / channels before sr / sw / ch: a long name at top level would win
+            eng.prove("C18:save:no-other-spelling-of-the-audio-parameters-reaches-the-writer",
+                      not (set(k) & {"sampling_rate", "sample_width", "channels"}), props=P18 + ("C13",))
             eng.prove("C18:save:returns-the-final-name", res is target or res == target, props=P18 + ("C13",))
         return None
     sess.run_unit(u, eng, run_)
